@@ -388,6 +388,9 @@ func c19Signature(s *Scenario, v *Violation) string {
 // shrinkScenario greedily simplifies a failing scenario while the same violation class persists.
 func (c *c19Ctx) shrinkScenario(s *Scenario, class string) (*Scenario, int) {
 	runs := 0
+	if os.Getenv("VERIF_NO_SHRINK") != "" { // sensitivity sweeps only need the verdict
+		return s, 0
+	}
 	still := func(cand *Scenario) bool {
 		runs++
 		_, v, err := c.execute(cand, false)
